@@ -6,10 +6,13 @@ package trzsz
 
 import (
 	"bytes"
+	"compress/zlib"
 	"crypto/sha256"
+	"encoding/base64"
 	"encoding/hex"
 	"encoding/json"
 	"fmt"
+	"io"
 	"io/fs"
 	"net"
 	"os"
@@ -203,7 +206,7 @@ type wLocalFault struct {
 type wFault struct {
 	Dir  string `json:"dir"`  // "c2s" | "s2c"
 	Off  int    `json:"off"`  // offset in the unfaulted stream of that direction
-	Kind string `json:"kind"` // flip0 flip5 del dup insnl insA trunc dupline delline
+	Kind string `json:"kind"` // flip0 flip5 del dup insnl insA trunc dupline delline cut0 cuthalf
 }
 
 // faultFilter applies the faults of one direction to the chunks written to a wire.
@@ -268,6 +271,17 @@ func faultFilter(faults []wFault, dir string) func([]byte) []byte {
 					out = append(out[:i], out[i+j+1:]...)
 					shift -= len(line)
 				}
+			case "cut0", "cuthalf":
+				// message-level fault: the line's encoded payload is replaced by a well-formed encoding of a
+				// prefix (nothing / the first half) of what it carried; lines whose payload is not an encoding stay as they are
+				j := bytes.IndexByte(out[i:], '\n')
+				if j < 0 {
+					continue
+				}
+				if nl := recodePrefix(out[i:i+j], f.Kind == "cuthalf"); nl != nil {
+					shift += len(nl) - j
+					out = append(append(append([]byte(nil), out[:i]...), nl...), out[i+j:]...)
+				}
 			case "trunc":
 				out = out[:i]
 				dead = true
@@ -276,6 +290,36 @@ func faultFilter(faults []wFault, dir string) func([]byte) []byte {
 		}
 		return out
 	}
+}
+
+// recodePrefix: "#TYPE:<base64(zlib(x))>" -> "#TYPE:<base64(zlib(prefix of x))>", nil when the payload is not such an encoding.
+// The encoder is the injector's own (compress/zlib + base64), not the product's.
+func recodePrefix(line []byte, half bool) []byte {
+	c := bytes.IndexByte(line, ':')
+	if c < 0 || len(line) == 0 || line[0] != '#' {
+		return nil
+	}
+	raw, err := base64.StdEncoding.DecodeString(strings.TrimRight(string(line[c+1:]), "\r"))
+	if err != nil {
+		return nil
+	}
+	zr, err := zlib.NewReader(bytes.NewReader(raw))
+	if err != nil {
+		return nil
+	}
+	x, err := io.ReadAll(zr)
+	if err != nil || len(x) == 0 {
+		return nil
+	}
+	keep := 0
+	if half {
+		keep = len(x) / 2
+	}
+	var b bytes.Buffer
+	zw := zlib.NewWriter(&b)
+	zw.Write(x[:keep])
+	zw.Close()
+	return append(append([]byte(nil), line[:c+1]...), base64.StdEncoding.EncodeToString(b.Bytes())...)
 }
 
 func chainFilters(fs ...func([]byte) []byte) func([]byte) []byte {
